@@ -19,6 +19,7 @@ import (
 	"encoding/json"
 	"flag"
 	"fmt"
+	"hash/crc32"
 	"hash/fnv"
 	"io"
 	"math"
@@ -29,6 +30,7 @@ import (
 	"reflect"
 	"regexp"
 	"runtime"
+	"runtime/pprof"
 	"sort"
 	"strings"
 	"sync"
@@ -59,10 +61,13 @@ func c18Hash(s string) uint64 {
 	return h.Sum64()
 }
 
+var c18Castagnoli = crc32.MakeTable(crc32.Castagnoli)
+
+// c18HashBytes summarises a (possibly large) byte string inside a result text. Two hardware CRC-32s rather than FNV: the
+// byte loop of hash/fnv is instrumented by the race detector (one call per byte; it was 15 % of the run), the CRC
+// routines are assembly.
 func c18HashBytes(b []byte) uint64 {
-	h := fnv.New64a()
-	_, _ = h.Write(b)
-	return h.Sum64()
+	return uint64(crc32.ChecksumIEEE(b))<<32 | uint64(crc32.Checksum(b, c18Castagnoli))
 }
 
 // c18Bytes is the canonical text of a byte string: short ones in full, long ones as length + hash + head.
@@ -73,7 +78,7 @@ func c18Bytes(b []byte) string {
 	if len(b) <= 48 {
 		return "x" + hex.EncodeToString(b)
 	}
-	return fmt.Sprintf("bytes(len=%d fnv=%016x head=%s)", len(b), c18HashBytes(b), hex.EncodeToString(b[:16]))
+	return fmt.Sprintf("bytes(len=%d crc=%016x head=%s)", len(b), c18HashBytes(b), hex.EncodeToString(b[:16]))
 }
 
 var c18Addr = regexp.MustCompile(`0xc[0-9a-f]{9}`)
@@ -518,15 +523,16 @@ func (b *c18Builder) heavy(is bool) {
 }
 
 // c18LZ4Keep thins the LZ4-compressing frame operations: message i of the vi-th version keeps them when (i + vi) is a
-// multiple of 4, so every version has some and every message kind has them in at least one version (there are six
-// versions). The decoding operations on LZ4 frames are kept for every message.
+// multiple of 4, so every version has some; frameOps also keeps them, in the last version, for every message kind
+// that was not picked in an earlier one, so every kind has them somewhere. The decoding operations on LZ4 frames are
+// kept for every message of every version.
 func c18LZ4Keep(i, vi int) bool { return (i+vi)%4 == 0 }
 
 func c18EncResult(out []byte, err error) string {
 	if err != nil {
 		return c18Err(err)
 	}
-	return fmt.Sprintf("bytes(len=%d fnv=%016x head=%s)", len(out), c18HashBytes(out), hex.EncodeToString(out[:c18min(len(out), 24)]))
+	return fmt.Sprintf("bytes(len=%d crc=%016x head=%s)", len(out), c18HashBytes(out), hex.EncodeToString(out[:c18min(len(out), 24)]))
 }
 
 func c18min(a, b int) int {
@@ -573,6 +579,7 @@ func c18Reader(b []byte, asBuffer bool) io.Reader {
 }
 
 func (b *c18Builder) frameOps(sh *c18Shared, w0 *c18World) {
+	lz4Kinds := map[string]bool{} // message kinds whose frames are LZ4-compressed by some operation
 	for vi, v := range Versions {
 		vn := versionName(v)
 		for i, nm := range w0.cat[v] {
@@ -585,7 +592,10 @@ func (b *c18Builder) frameOps(sh *c18Shared, w0 *c18World) {
 				argText := c18Dump(f0)
 				unordered := c18MultiMap(reflect.ValueOf(f0), 0)
 				lz4Heavy := fc.name == "lz4" && flagged
-				encodeToo := !lz4Heavy || c18LZ4Keep(i, vi)
+				encodeToo := !lz4Heavy || c18LZ4Keep(i, vi) || (vi == len(Versions)-1 && !lz4Kinds[nm.Kind])
+				if lz4Heavy && encodeToo {
+					lz4Kinds[nm.Kind] = true
+				}
 				if encodeToo {
 					b.c18EncodeFrameOp(fc, v, i, what, argText, unordered)
 					b.heavy(lz4Heavy)
@@ -607,7 +617,7 @@ func (b *c18Builder) frameOps(sh *c18Shared, w0 *c18World) {
 				})
 				if fc.raw == nil || (fc.compress && i%3 != 2) {
 					// the header-only / raw-body operations are exercised for every message on the "raw" instance, and for
-					// every third message on the compressing instances (each LZ4 call allocates a 512 KiB hash table)
+					// every third message on the compressing instances (see c18Op.Heavy for what an LZ4 compression costs here)
 					continue
 				}
 				rc := fc.raw
@@ -887,8 +897,8 @@ func (b *c18Builder) compressorOps(sh *c18Shared, payloads []c18Payload) {
 }
 
 func (b *c18Builder) valueOps(sh *c18Shared) {
-	versions := []primitive.ProtocolVersion{primitive.ProtocolVersion2, primitive.ProtocolVersion3, primitive.ProtocolVersion4,
-		primitive.ProtocolVersion5, primitive.ProtocolVersionDse2}
+	// v2 writes collection sizes as [short], v3 and later as [int]; v5 and DSE v2 add the duration type
+	versions := []primitive.ProtocolVersion{primitive.ProtocolVersion2, primitive.ProtocolVersion4, primitive.ProtocolVersion5, primitive.ProtocolVersionDse2}
 	for _, vc := range sh.values {
 		vc := vc
 		for _, v := range versions {
@@ -974,12 +984,19 @@ func c18(args []string) int {
 	R := fs.Int("rounds", 3, "rounds (each goroutine performs every operation once per round)")
 	maxEvents := fs.Int("max-events", 20000, "concurrent calls sampled into the event file (calls whose result differs are always included)")
 	heavyShare := fs.Int("heavy-share", 1, "N: in each round a goroutine performs the LZ4-compressing operations number i with (i+goroutine+round) a multiple of N; 1 = every goroutine performs ALL operations every round")
+	procs := fs.Int("procs", 8, "GOMAXPROCS. Under the race detector this workload scales negatively beyond ~8 threads: large allocations (LZ4 match tables, big buffers) make the race runtime remap shadow memory, and the TLB shootdowns hit every running thread; measured on 16 cores, 32 goroutines x 4 rounds: 19 s with 4, 21 s with 8, 53 s with 16")
+	raceLog := fs.String("race-log", "", "the log_path given in GORACE; once this process's race log outgrows -race-log-limit the concurrent phase stops early (every further report costs ~0.1 s and adds nothing to the verdict)")
+	raceLogLimit := fs.Int64("race-log-limit", 200<<10, "bytes of race reports after which the concurrent phase stops")
+	cpuProf := fs.String("cpuprofile", "", "write a CPU profile of the concurrent phase here (debugging)")
 	only := fs.String("ops", "", "restrict to operations whose op name matches this regular expression (debugging / replay)")
 	skip := fs.String("skip", "", "leave out operations whose op name matches this regular expression (debugging)")
 	_ = fs.Parse(args)
 	if *evOut == "" || *M < 2 || *R < 1 {
 		fmt.Fprintln(os.Stderr, "c18: -events is required, -goroutines >= 2, -rounds >= 1")
 		return 2
+	}
+	if *procs > 0 {
+		runtime.GOMAXPROCS(*procs)
 	}
 	rep := &Report{Extra: map[string]interface{}{}}
 	t0 := time.Now()
@@ -1065,8 +1082,46 @@ func c18(args []string) int {
 	var mismatches []c18Mismatch
 	nMismatch := 0
 	var calls64 int64
+	if *cpuProf != "" {
+		if pf, err := os.Create(*cpuProf); err == nil {
+			_ = pprof.StartCPUProfile(pf)
+			defer pprof.StopCPUProfile()
+		}
+	}
+	groupOf := make([]int, K) // operation -> index of its "kind/instance" group, for the time accounting
+	var groups []string
+	concTime := map[string]float64{}
+	{
+		idx := map[string]int{}
+		for i, op := range ops {
+			k := op.Kind + "/" + strings.Split(op.Op, "/")[1]
+			if _, ok := idx[k]; !ok {
+				idx[k] = len(groups)
+				groups = append(groups, k)
+			}
+			groupOf[i] = idx[k]
+		}
+	}
+	var stop atomic.Bool
+	monitorDone := make(chan struct{})
+	if *raceLog != "" {
+		own := fmt.Sprintf("%s.%d", *raceLog, os.Getpid())
+		go func() {
+			for {
+				select {
+				case <-monitorDone:
+					return
+				case <-time.After(200 * time.Millisecond):
+				}
+				if st, err := os.Stat(own); err == nil && st.Size() > *raceLogLimit {
+					stop.Store(true)
+					return
+				}
+			}
+		}()
+	}
 	t1 := time.Now()
-	for r := 0; r < *R; r++ {
+	for r := 0; r < *R && !stop.Load(); r++ {
 		res[r] = make([][]uint32, *M)
 		var ready, done sync.WaitGroup
 		start := make(chan struct{})
@@ -1091,8 +1146,16 @@ func c18(args []string) int {
 				var mine []c18Mismatch
 				ready.Done()
 				<-start
+				spent := make([]time.Duration, len(groups))
+				performed := 0
 				for _, i := range order {
+					if stop.Load() {
+						break
+					}
+					performed++
+					ts := time.Now()
 					t := ops[i].run(w)
+					spent[groupOf[i]] += time.Since(ts)
 					h := c18Hash(t)
 					out[i] = uint32(h & c18Mask)
 					if h != F[i].sum {
@@ -1103,7 +1166,12 @@ func c18(args []string) int {
 					}
 				}
 				res[r][g] = out
-				atomic.AddInt64(&calls64, int64(len(order)))
+				mmMu.Lock()
+				for k, d := range spent {
+					concTime[groups[k]] += d.Seconds() * 1000
+				}
+				mmMu.Unlock()
+				atomic.AddInt64(&calls64, int64(performed))
 				if len(mine) > 0 {
 					mmMu.Lock()
 					nMismatch += len(mine)
@@ -1119,6 +1187,10 @@ func c18(args []string) int {
 		done.Wait()
 	}
 	tConc := time.Since(t1)
+	close(monitorDone)
+	if stop.Load() {
+		rep.Notes = append(rep.Notes, fmt.Sprintf("the concurrent phase was stopped early: the race detector had already written more than %d KiB of reports", *raceLogLimit>>10))
+	}
 	calls := int(calls64)
 	rep.Evaluations = calls
 	rep.Distinct = len(live)
@@ -1145,7 +1217,9 @@ func c18(args []string) int {
 			fmt.Sprintf("%s [%s]: called concurrently by goroutine %d of %d in round %d it returned %s ; called sequentially it returned %s",
 				op.Desc, op.Op, m.thread, *M, m.round, m.got, F[m.op].text),
 			map[string]interface{}{"check": "c18", "op": op.Op, "arg": op.Arg, "desc": op.Desc, "seed": *seedv, "goroutines": *M, "rounds": *R,
-				"round": m.round, "goroutine": m.thread, "sequential": F[m.op].text, "concurrent": m.got})
+				"round": m.round, "goroutine": m.thread, "sequential": F[m.op].text, "concurrent": m.got,
+				"rerun": fmt.Sprintf("harness(-race) c18 -events /tmp/c18-events.ndjson -seed %d -goroutines %d -rounds %d -ops '^%s$'   (stress: the schedule is not replayed, only this operation is repeated by all goroutines)",
+					*seedv, *M, 50**R, regexp.QuoteMeta(op.Op))})
 	}
 
 	// ---- events for TLC: every def, a seeded sample of the rets, and every ret that differs
@@ -1166,10 +1240,10 @@ func c18(args []string) int {
 	srnd := rand.New(rand.NewSource(*seedv ^ 0x7ace))
 	written, differing := 0, 0
 	for r := 0; r < *R; r++ {
-		for g := 0; g < *M; g++ {
+		for g := 0; g < *M && res[r] != nil; g++ {
 			g := g
 			for _, i := range live {
-				if res[r][g][i] == c18NotCalled {
+				if res[r][g] == nil || res[r][g][i] == c18NotCalled {
 					continue
 				}
 				differs := res[r][g][i] != uint32(F[i].sum&c18Mask)
@@ -1211,6 +1285,8 @@ func c18(args []string) int {
 	}
 	rep.Extra["operations_heavy_lz4_compress"] = nHeavy
 	rep.Extra["heavy_share"] = *heavyShare
+	rep.Extra["gomaxprocs"] = runtime.GOMAXPROCS(0)
+	rep.Extra["stopped_early"] = stop.Load()
 	rep.Extra["operations"] = K
 	rep.Extra["operations_by_kind"] = kinds
 	rep.Extra["sequential_error_results_by_kind"] = seqErrors
@@ -1218,6 +1294,10 @@ func c18(args []string) int {
 		seqTime[k] = math.Round(v)
 	}
 	rep.Extra["sequential_ms_by_kind_and_instance"] = seqTime
+	for k, v := range concTime {
+		concTime[k] = math.Round(v)
+	}
+	rep.Extra["concurrent_ms_by_kind_and_instance"] = concTime
 	rep.Extra["sequentially_unstable"] = len(unstable)
 	rep.Extra["result_mismatches"] = nMismatch
 	rep.Extra["events_def"] = len(live)
